@@ -256,6 +256,20 @@ ROUND7 = {
  "C05": " Round 7: (R9) as C04 R8.",
  "C09": " Round 7: R2 judges any way of accumulating a moment by its closed form in the raw moments of the projection.",
 }
+ROUND8 = {
+ "C01": " Round 8: (R11) the work grids are copies with the same axes (re-evaluates C09 R4).",
+ "C03": " Round 8: (R10) a grid loaded from a file gets the scales main computed (re-evaluates C11 R4).",
+ "C05": " Round 8: (R10) static RF maps are built at the synchronous phase (re-evaluates C19 R2).",
+ "C10": " Round 8: (R10) the stored axes are the coordinates the dynamics use: kick and drift vanish at the rulers' zero (re-evaluates C03 R3).",
+ "C11": " Round 8: (R7) the last record of an interrupted run is a completed step: nothing but the loop condition and the closing message reads the abort flag (re-evaluates C14 R2).",
+ "C12": " Round 8: (R6) members used as array indices are initialised by every constructor (re-evaluates C17 R11).",
+ "C13": " Round 8: (R10) string values reach the file exactly as parsed.",
+ "C14": " Round 8: R4 finds the final block by what it does and requires its condition to be 'the results file is open' and nothing else.",
+ "C16": " Round 8: (R9) no floating-point value of an impedance formula is passed through an integer parameter (abs(int)).",
+ "C17": " Round 8: (R10) iterator-range algorithms write no more elements than the destination holds; (R11) every member used as an array index is initialised by every constructor.",
+ "C18": " Round 8: (R6) every result cell is stored by every request (no store skipped under a condition on the data).",
+ "C20": " Round 8: (R11) parse() reads an option-bound member only after notify() has delivered it.",
+}
 RD_TEXT = (" Dimensional consistency (rule RD, engine E7): a units-of-measure inference over the whole program (dimension variables per storage location, "
            "linear constraints from every arithmetic expression, solved over the rationals; units taken from the options' help texts, the physcons constants "
            "and the unit names used as keys) shows that the quantities this property depends on have the dimensions their use demands, for every parameter set; "
@@ -274,6 +288,8 @@ for _p, _t in ROUND5.items():
 for _p, _t in ROUND6.items():
     CLAIMED[_p]["text"] = CLAIMED[_p]["text"].rstrip() + _t
 for _p, _t in ROUND7.items():
+    CLAIMED[_p]["text"] = CLAIMED[_p]["text"].rstrip() + _t
+for _p, _t in ROUND8.items():
     CLAIMED[_p]["text"] = CLAIMED[_p]["text"].rstrip() + _t
 CLAIMED["C13"]["note"] = CLAIMED["C13"]["note"].replace("two recorded as known findings (ForceOpenGLVersion type, run_anyway skipped)", "ForceOpenGLVersion repaired later (93250ff), run_anyway skipped is a known finding")
 CLAIMED["C19"]["technique"] = "call-argument role agreement (resolved constructors), symbolic folding of the modulation expressions, life-cycle typestate (may-dataflow over the CFGs of constructors and apply) and exactly-once counts on the CFG"
